@@ -878,6 +878,14 @@ func (e *Emitter) emitHelperFunctions(calledFunctions map[ir.FunctionHandle]bool
 		savedLocalVarStructTypes := e.localVarStructTypes
 		savedLocalVarArrayTypes := e.localVarArrayTypes
 		savedLoopStack := e.loopStack
+		// The local-variable promotion tables are per function as well; helper
+		// functions are emitted before the entry point creates them.
+		savedZeroStoreLocals := e.zeroStoreLocals
+		savedInitOnlyLocals := e.initOnlyLocals
+		savedSingleStoreLocals := e.singleStoreLocals
+		e.zeroStoreLocals = make(map[uint32]ir.TypeHandle)
+		e.initOnlyLocals = make(map[uint32]ir.ExpressionHandle)
+		e.singleStoreLocals = make(map[uint32]ir.ExpressionHandle)
 
 		e.mainFn = dxilFn
 		e.exprValues = make(map[ir.ExpressionHandle]int)
@@ -968,6 +976,9 @@ func (e *Emitter) emitHelperFunctions(calledFunctions map[ir.FunctionHandle]bool
 		e.localVarStructTypes = savedLocalVarStructTypes
 		e.localVarArrayTypes = savedLocalVarArrayTypes
 		e.loopStack = savedLoopStack
+		e.zeroStoreLocals = savedZeroStoreLocals
+		e.initOnlyLocals = savedInitOnlyLocals
+		e.singleStoreLocals = savedSingleStoreLocals
 		e.globalVarAllocas = savedGlobalVarAllocas
 		e.globalVarAllocaTypes = savedGlobalVarAllocaTypes
 		e.intConsts = savedIntConsts
